@@ -622,6 +622,95 @@ Proof.
   destruct (mrootsL fuel roots [] []) as [[v c]|]; [eauto|discriminate].
 Qed.
 
+
+(* ---------------- an explicit iteration bound: linear in the graph, independent of the number of paths ------- *)
+Section Bound.
+Variable ks : list nat.                       (* the keys: every node with successors *)
+Hypothesis ks_nodup : NoDup ks.
+Hypothesis ks_cover : forall u, succ u <> [] -> In u ks.
+
+(* successors of the keys that are not visited yet *)
+Fixpoint pot (l : list nat) (vis : list nat) : nat :=
+  match l with
+  | [] => 0
+  | u :: r => (if mem u vis then 0 else length (succ u)) + pot r vis
+  end.
+
+Lemma pot_mono l x vis : pot l (x :: vis) <= pot l vis.
+Proof.
+  induction l as [|u r IH]; cbn [pot]; auto. rewrite mem_cons.
+  destruct (u =? x); cbn [orb]; [lia|]. destruct (mem u vis); lia.
+Qed.
+
+Lemma pot_visit l x vis : NoDup l -> In x l -> mem x vis = false -> pot l (x :: vis) + length (succ x) <= pot l vis.
+Proof.
+  induction l as [|u r IH]; intros Hnd Hin Hm; [destruct Hin|]. inversion Hnd; subst. cbn [pot]. rewrite mem_cons.
+  destruct Hin as [->|Hin].
+  - rewrite Nat.eqb_refl. cbn [orb]. rewrite Hm. pose proof (pot_mono r x vis). lia.
+  - destruct (u =? x) eqn:E; [apply Nat.eqb_eq in E; subst; contradiction|]. cbn [orb].
+    specialize (IH H2 Hin Hm). destruct (mem u vis); lia.
+Qed.
+
+Lemma entries_length tr l : length (entries tr l) <= length l.
+Proof.
+  induction l as [|a r IH]; cbn [entries length]; auto. rewrite app_length.
+  destruct (mem a tr); cbn [length]; lia.
+Qed.
+
+(* with fuel above |stack| + potential the loop completes *)
+Theorem machine_bound : forall fuel stk vis errs,
+  length stk + pot ks vis < fuel -> exists r, machine fuel stk vis errs = Some r.
+Proof.
+  induction fuel as [|f IH]; intros stk vis errs Hlt; [lia|]. cbn [machine].
+  destruct stk as [|[|h tl] stk']; [eauto| |].
+  - apply IH. cbn [length] in Hlt. lia.
+  - destruct (mem h vis) eqn:Em.
+    + apply IH. cbn [length] in Hlt. lia.
+    + rewrite children_step_eq. apply IH. rewrite app_length.
+      pose proof (entries_length (h :: tl) (succ h)) as He. cbn [length] in Hlt.
+      destruct (succ h) as [|a0 l0] eqn:Es.
+      * cbn [entries length] in *. pose proof (pot_mono ks h vis). lia.
+      * assert (Hin : In h ks) by (apply ks_cover; rewrite Es; discriminate).
+        pose proof (pot_visit ks h vis ks_nodup Hin Em) as Hp. rewrite Es in Hp. lia.
+Qed.
+
+Lemma machine_vis_incl : forall fuel stk vis errs v e, machine fuel stk vis errs = Some (v, e) -> incl vis v.
+Proof.
+  induction fuel as [|f IH]; intros stk vis errs v e H; [discriminate|]. cbn [machine] in H.
+  destruct stk as [|[|h tl] stk'].
+  - inversion H; subst. apply incl_refl.
+  - eapply IH; eauto.
+  - destruct (mem h vis); [eapply IH; eauto|].
+    destruct (children_step (h :: tl) (succ h)) as [ps e1]. apply IH in H. intros x Hx. apply H. right. exact Hx.
+Qed.
+
+Lemma pot_incl l vis vis' : incl vis vis' -> pot l vis' <= pot l vis.
+Proof.
+  intros Hi. induction l as [|u r IH]; cbn [pot]; auto.
+  destruct (mem u vis) eqn:E.
+  - apply mem_In in E. apply Hi in E. apply mem_In in E. rewrite E. lia.
+  - destruct (mem u vis'); lia.
+Qed.
+
+(* the outer loop over all roots completes with fuel 2 + sum of the successor counts, whatever the roots *)
+Theorem mroots_bound : forall roots vis errs fuel,
+  1 + pot ks [] < fuel -> exists r, mroots fuel roots vis errs = Some r.
+Proof.
+  induction roots as [|r rs IH]; intros vis errs fuel Hf; cbn [mroots]; [eauto|].
+  destruct (machine_bound fuel [[r]] vis errs) as [[v e] Hm].
+  { cbn [length]. pose proof (pot_incl ks [] vis (incl_nil_l vis)). lia. }
+  rewrite Hm. apply IH. exact Hf.
+Qed.
+
+Theorem mrootsL_bound roots fuel :
+  1 + pot ks [] < fuel -> exists v cycles, mrootsL fuel roots [] [] = Some (v, cycles).
+Proof.
+  intros Hf. destruct (mroots_bound roots [] 0 fuel Hf) as [[v e] Hm].
+  pose proof (mrootsL_forget fuel roots [] []) as Hfg. cbn [length] in Hfg. rewrite Hm in Hfg.
+  destruct (mrootsL fuel roots [] []) as [[v' c]|]; [eauto|discriminate].
+Qed.
+End Bound.
+
 End G.
 Print Assumptions rdfs_ok.
 Print Assumptions rdfs_sound.
